@@ -268,7 +268,7 @@ def opt_engine(prop, conf, params, tier, seed, broken_gate):
         r["ok"] += r2["ok"]
     nontrivial = set()
     dist = dict(scripts={}, outcomes={}, states={}, accepts=0, rejects=0, none_scores=0, clamped=0,
-                boundary_decisions=0, converged_early=0, inference_inconclusive=0, multi_loop=0)
+                boundary_decisions=0, converged_early=0, inference_inconclusive=0, multi_loop=0, random_stream_not_followed=0)
     for spec, kv in r["metas"]:
         m = re.search(r"script=(\w+)", spec)
         key = m.group(1) if m else "real"
@@ -280,6 +280,7 @@ def opt_engine(prop, conf, params, tier, seed, broken_gate):
         dist["boundary_decisions"] += int(kv.get("boundary", 0))
         dist["converged_early"] += 1 if kv.get("early") == "true" else 0
         dist["inference_inconclusive"] += 1 if kv.get("amb") == "true" else 0
+        dist["random_stream_not_followed"] += 1 if kv.get("desync") == "true" else 0
         dist["multi_loop"] += 1 if int(kv.get("loops", 0)) > 1 else 0
         if int(kv.get("accepts", 0)) > 0 and int(kv.get("rejects", 0)) > 0:
             nontrivial.add(re.sub(r"^opt id=\S+ ", "", spec))
